@@ -252,6 +252,40 @@ def runHistory (cfg : Config) (s : FState) (h : List Blk) : FState × List Event
     let (s', evs, _) := processBlock cfg acc.1 b none
     (s', acc.2 ++ evs)) (s, [])
 
+/-! ### executable checks of the hypotheses of the step theorem (Props/C01); soundness in Lemmas/StepCheckSound -/
+
+/-- the buffer with a new, unsent block appended (what AddLink does for a block that is not stored) -/
+def appendBlk (db : DB) (b : Blk) : DB := { db with entries := db.entries ++ [⟨b, false⟩] }
+
+def wfInB (b : Blk) : Bool := b.id != "" && b.parent != "" && b.id != b.parent
+
+def hbB (db : DB) (b : Blk) : Bool :=
+  db.entries.all (fun p => !(b.parent == p.blk.id) || decide (p.blk.num < b.num)) &&
+  db.entries.all (fun e => !(e.blk.parent == b.id) || decide (b.num < e.blk.num)) &&
+  (!(b.parent == db.libRef.id) || decide (db.libRef.num < b.num)) &&
+  (!(b.id == db.libRef.id) || b.num == db.libRef.num)
+
+def libDeclB (db : DB) (b : Blk) : Bool :=
+  match (appendBlk db b).find ((appendBlk db b).blockInChain b.ref b.lib).id with
+  | some e => e.blk.num == ((appendBlk db b).blockInChain b.ref b.lib).num
+  | none => true
+
+/-- walking down from a delivered block: every stored ancestor above the LIB is delivered too -/
+def sentChainB (db : DB) : Nat → Id → Bool
+  | 0, _ => false
+  | fuel + 1, cur =>
+    let p := db.link cur
+    if p == db.libRef.id then true
+    else match db.find p with
+      | none => true
+      | some ep => ep.sent && sentChainB db fuel p
+
+def sentClosedB (db : DB) : Bool :=
+  db.entries.all (fun e => !e.sent || sentChainB db (db.entries.length + 1) e.blk.id)
+
+def stepOKb (s : FState) (b : Blk) : Bool :=
+  sentClosedB s.db && wfInB b && hbB s.db b && libDeclB s.db b
+
 /-! ### read-only queries (C18) -/
 
 def headInfo (s : FState) : Option Blk := s.lastSent
